@@ -363,7 +363,7 @@ def _fresh_main():
 def plan(tier, seed, scale=1.0):
     q = tier == "quick"
     n, copies = (60, 8) if q else (1200, 16)
-    return [dict(shard=f"n{c}", n=int(n * scale), budget_s=60 if q else 900, timeout_s=240 if q else 1800, fresh_rebuilds=3 if q else 12,
+    return [dict(shard=f"n{c}", n=int(n * scale), budget_s=60 if q else 900, timeout_s=240 if q else 1800, fresh_rebuilds=2 if q else 12,
                  hash_seed=(seed * 47 + c) % 4294967295) for c in range(copies)]
 
 
